@@ -75,12 +75,14 @@ impl Driver for D {
             "new" => {
                 let f = LossyCounter::<u64>::with_width(p(&op[2]));
                 let r = vec![f.epsilon().to_bits().to_string()];
+                put(&mut self.v, i, Inst { f, ctor: op.to_vec(), exact: HashMap::new(), n: 0 });
                 r
             }
             "neweps" => {
                 let e = f64::from_bits(p::<u64>(&op[2]));
                 let f = LossyCounter::<u64>::with_epsilon(e);
                 let r = vec![f.width().to_string()];
+                put(&mut self.v, i, Inst { f, ctor: op.to_vec(), exact: HashMap::new(), n: 0 });
                 r
             }
             "add" => {
